@@ -351,6 +351,27 @@ func (s *RS) Run(ctx context.Context, sp Spec) (Out, error) {
 			return rc.Stubborn
 		case "Big":
 			return func(ctx context.Context, a int) (int, error) { return rc.Big(ctx, a, strings.Repeat("b", 40<<20)) }
+		case "Ticks2":
+			// subscribe and return the first two values as v1*1000+v2
+			return func(ctx context.Context, a int) (int, error) {
+				ch, err := rc.Ticks(ctx, a)
+				if err != nil {
+					return 0, err
+				}
+				vs := []int{}
+				for len(vs) < 2 {
+					select {
+					case v, ok := <-ch:
+						if !ok {
+							return 0, fmt.Errorf("reverse subscription closed after %v", vs)
+						}
+						vs = append(vs, v)
+					case <-time.After(4 * time.Second):
+						return 0, fmt.Errorf("reverse subscription delivered only %v within 4s", vs)
+					}
+				}
+				return vs[0]*1000 + vs[1], nil
+			}
 		case "Ticks":
 			// subscribe and return the first value
 			return func(ctx context.Context, a int) (int, error) {
